@@ -18,6 +18,11 @@ RombCases == {[fam |-> "romberg", p |-> Mono(d), a |-> R(e[1]), b |-> R(e[2]), e
         \cup {[fam |-> "romberg", p |-> p, a |-> R(e[1]), b |-> R(e[2]), eps |-> eps, nmax |-> k] :
                 p \in {<<0, 0, 0 - 1, 0, 1>>, <<1, 0 - 1, 2>>, <<0, 0, 0, 1>>, Mono(6)}, e \in {<<0 - 1, 1>>, <<0, 2>>},
                 eps \in {<<1, 1000>>, <<1, 64>>}, k \in 2..5}
+        \* tolerance exactly 0 on an integrand whose first tableau rows COINCIDE without being exact (the nodes 0, 1, 2, 3, 4 are roots of
+        \* the degree-6 part, the nodes 0, 2, 4 of the cubic part): "difference below the tolerance" is never true for a tolerance of 0,
+        \* so every level of the budget is used
+        \cup {[fam |-> "romberg", p |-> <<d, 8 * cc, 24 - 6 * cc, cc - 50, 35, 0 - 10, 1>>, a |-> R(e[1]), b |-> R(e[2]), eps |-> RZ, nmax |-> k] :
+                d \in {0, 1}, cc \in {0, 1}, e \in {<<0, 4>>, <<4, 0>>}, k \in 3..5}
 \* deep level budgets without early stop (eps = 0): by Inv_RombergExact (checked for 2..4 levels; a theorem for every k: Richardson
 \* extrapolation preserves exactness) a cubic is integrated exactly at EVERY budget; the tableau itself (2^19 nodes) is not built here
 DeepCases == {[fam |-> "romberg_deep", p |-> p, a |-> R(e[1]), b |-> R(e[2]), nmax |-> k] :
